@@ -39,12 +39,14 @@ public:
 
     Ptr& operator=(const Ptr& other)
     {
-      if(other.refObj)
-        Atomic::increment(other.refObj->ref);
+      Object* newRefObj = other.refObj;
+      C* newObj = other.obj;
+      if(newRefObj)
+        Atomic::increment(newRefObj->ref);
       if(refObj && Atomic::decrement(refObj->ref) == 0)
         delete refObj;
-      refObj = other.refObj;
-      obj = other.obj;
+      refObj = newRefObj;
+      obj = newObj;
       return *this;
     }
 
@@ -62,12 +64,14 @@ public:
 
     template <class D> Ptr& operator=(const Ptr<D>& other)
     {
-      if(other.refObj)
-        Atomic::increment(other.refObj->ref);
+      Object* newRefObj = other.refObj;
+      C* newObj = other.obj;
+      if(newRefObj)
+        Atomic::increment(newRefObj->ref);
       if(refObj && Atomic::decrement(refObj->ref) == 0)
         delete refObj;
-      refObj = other.refObj;
-      obj = other.obj;
+      refObj = newRefObj;
+      obj = newObj;
       return *this;
     }
 
